@@ -102,6 +102,62 @@ def param_programs():
         top.i = m(inp=top.a, out=top.b, vdd=top.c, k=top.kk)
         return top
     yield ("params/redeclared-ports", redeclared)
+
+    # parameter classes with enum-, string- and bool-valued fields on external modules; literals that look like numbers
+    def typed_paramclass():
+        import enum
+
+        class Corner(enum.Enum):
+            TT = "tt"
+            FF = "ff"
+
+        class Speed(str, enum.Enum):
+            FAST = "fast"
+        PC = h.paramclass(type("EnumP", (), {"corner": h.Param(dtype=Corner, desc="c", default=Corner.TT),
+                                             "speed": h.Param(dtype=Speed, desc="s", default=Speed.FAST),
+                                             "label": h.Param(dtype=str, desc="l", default="1e3"),
+                                             "n": h.Param(dtype=int, desc="n", default=2)}))
+        E = h.ExternalModule(name="EXTE", port_list=[h.Inout(name="p")], paramtype=PC, desc="", domain="dom")
+        m = h.Module(name="PEnum")
+        m.a = h.Signal()
+        m.e1 = E(PC())(p=m.a)
+        m.e2 = E(PC(corner=Corner.FF, label="007", n=0))(p=m.a)
+        m.mn = h.Nmos(model="25")(d=m.a, g=m.a, s=m.a, b=m.a)
+        return m
+    yield ("params/typed-paramclass", typed_paramclass)
+
+    def numeric_literals():
+        m = h.Module(name="PLit")
+        m.a, m.b = h.Signal(), h.Signal()
+        E = h.ExternalModule(name="EXTL", port_list=[h.Inout(name="p"), h.Inout(name="n")], paramtype=dict, desc="", domain="dom")
+        m.e = E(x=h.Literal("1000"), y=h.Literal("3"), z=h.Literal("1e-9"))(p=m.a, n=m.b)
+        return m
+    yield ("params/numeric-literals-on-external-modules", numeric_literals)
+
+    def numeric_literals_prim():
+        m = h.Module(name="PLitP")
+        m.a, m.b = h.Signal(), h.Signal()
+        m.r = h.R(r=h.Literal("1000"))(p=m.a, n=m.b)
+        m.c = h.C(c=h.Literal("3"))(p=m.a, n=m.b)
+        return m
+    yield ("params/numeric-literals-on-primitives", numeric_literals_prim)
+
+    # signals and ports called like attributes of the Module object itself (only add() can give such names)
+    def attribute_like_names():
+        c = h.Module(name="AttrNames")
+        for nm in ("name", "bundle_ports", "_importpath", "_source_info"):
+            c.add(h.Port(), name=nm)
+        c.add(h.Signal(), name="roles")
+        c.r1 = h.R(r=1)(p=c.get("name"), n=c.get("bundle_ports"))
+        c.r2 = h.R(r=2)(p=c.get("_importpath"), n=c.get("roles"))
+        c.r3 = h.R(r=3)(p=c.get("_source_info"), n=c.get("roles"))
+        top = h.Module(name="AttrNamesTop")
+        top.s = h.Signal()
+        top.i = c(**{"_importpath": top.s, "_source_info": top.s})
+        top.i.connect("name", top.s)
+        top.i.connect("bundle_ports", top.s)
+        return top
+    yield ("params/attribute-like-signal-names", attribute_like_names)
     from vlsirtools import SpiceType
     for st in SpiceType:
         def b(st=st):
